@@ -42,11 +42,13 @@ Inductive expr : Type :=
 | EGroup (i : info) (e : expr)           (* invisible delimiter group *)
 | EPath (i : info) (p : path)
 | EArray (i : info) (es : list expr)
-| EOther (i : info) (kind : string).
+| EOther (i : info) (kind : string)
+| ENeg (i : info) (l : lit).            (* the negation of an integer / float literal: what syn makes of
+                                           `name = -1` when another item follows; [l] is the negative literal *)
 
 Definition einfo (e : expr) : info :=
   match e with
-  | ELit i _ | EGroup i _ | EPath i _ | EArray i _ | EOther i _ => i
+  | ELit i _ | EGroup i _ | EPath i _ | EArray i _ | EOther i _ | ENeg i _ => i
   end.
 
 Fixpoint strip_groups (e : expr) : expr :=
@@ -63,6 +65,7 @@ Fixpoint respan_expr (s : span) (e : expr) : expr :=
   | EPath i p => EPath (respan_info s i) (respan_path s p)
   | EArray i es => EArray (respan_info s i) (map (respan_expr s) es)
   | EOther i k => EOther (respan_info s i) k
+  | ENeg i l => ENeg (respan_info s i) l
   end.
 
 (** [darling::ast::NestedMeta]; every constructor except [NLit] is a [syn::Meta].
@@ -149,6 +152,7 @@ Definition expr_type_name (e : expr) : string :=
   match e with
   | ELit _ _ => "lit" | EGroup _ _ => "group" | EPath _ _ => "path" | EArray _ _ => "array"
   | EOther _ k => k
+  | ENeg _ _ => "unary"
   end.
 
 Definition unexpected_lit_type (i : info) (l : lit) : err :=
